@@ -4,6 +4,8 @@ from . import proggen as G
 
 ID = "C13"
 SPEC_IS_ORACLE = lambda c: c.cmd == "CMPX"
+# theorems of Props/Tables.lean over the tables TRANSLATED from /repo/src and libccp's headers on every run (DESIGN 11.7)
+TABLE_THEOREMS = ['src_builtins_eq', 'primitives_shared_with_libccp', 'implicits_shared_with_libccp']
 THEOREMS = [
     "Portus.C13.builtin_abi", "Portus.C13.builtin_only", "Portus.C13.abiTable_positions",
     "Portus.C13.report_slots", "Portus.C13.report_slots_bijective", "Portus.C13.declareAll_ok_iff",
